@@ -161,6 +161,34 @@ def generate(rng, tier, focus):
                 acts.append(["unsub", 1])
                 acts += [["emit", 0, n(rng.choice([1, 2, 3]))]]
         cases.append((scn(subjects=[["subject"]], conns=[[kind, ["hot", 0]]], handles=3, script_=acts), {"k": "dead-on-arrival"}))
+    # three subscribers of one shared stream; each one, on its second item, unsubscribes its NEIGHBOUR from inside the callback: whoever
+    # is still subscribed at the end has received every item (the fan-out must skip a subscriber that has just left, not stop at it);
+    # which subscriber is served first is the subject's hash order, so this family is judged on the implementation alone
+    for _ in range(900 if thorough else 150):
+        kind = rng.choice(["publish", "refcount", "replay"])
+        items = [n(v) for v in range(1, rng.randrange(3, 6))]
+        acts = [sub(u, ["conn", 0], (1, ["unsub", (u + 1) % 3])) for u in range(3)]
+        if kind == "publish":
+            acts.append(["connect", 0, 0])
+        acts += [["emit", 0, x] for x in items]
+        cases.append((scn(subjects=[["subject"]], conns=[[kind, ["hot", 0]]], handles=3, script_=acts), {"k": "unsub-neighbour", "no_model": True, "items": [sx.dumps(x) for x in items]}))
     import common
     cases += common.conn_stress(rng, 2400 if thorough else 400)
     return cases
+
+
+def judge_impl(cases, obs):
+    out = []
+    for i, ((sc, info), ob) in enumerate(zip(cases, obs)):
+        if info.get("k") != "unsub-neighbour" or ob["out"] != "ok" or not ob["snaps"]:
+            continue
+        flags = ob["snaps"][-1][1]
+        for u in range(3):
+            got = [sx.dumps(x[2]) for x in ob["log"] if x[0] == "t%d" % u]
+            if str(flags[u]) == "1" and got != info["items"]:
+                out.append((i, "subscriber %d stayed subscribed throughout but received %s of the items %s (another subscriber was unsubscribed from inside a callback while an item was going round)" % (u, " ".join(got), " ".join(info["items"]))))
+                break
+            if got != info["items"][:len(got)]:
+                out.append((i, "subscriber %d received %s: not a prefix of %s" % (u, " ".join(got), " ".join(info["items"]))))
+                break
+    return out
